@@ -422,7 +422,96 @@ def r09_9(run, model):
            witness="struct Point { x, y }: Point { y: f(), x: g() } emits `t3 = g(); t4 = f()` - g runs before f")
 
 
+def r09_10(run, model):
+    run.rule("R09.10", "a chain of lets that is built by wrapping keeps source order: where a pass folds a collection into nested "
+                       "`let x_i = e_i in <acc>` (the accumulator becomes the body of each new let), the last element wrapped ends up "
+                       "outermost and is evaluated first - so the collection is walked in reverse")
+    n = 0
+    for rel in model.src_files():
+        if not rel.startswith("crates/compiler/src/") or "/tests/" in rel or "/pprint/" in rel:
+            continue
+        for f in model.fns(rel):
+            if f.body is None:
+                continue
+            k = 0
+            # (a) for x in ITER { acc = Let { .., body: Box::new(acc) } }
+            par = None
+            for loop in S.find(f.body, "For"):
+                for asg in S.walk(loop["body"]):
+                    if asg["k"] != "Assign" or asg["left"]["k"] != "Path" or len(asg["left"]["segs"]) != 1:
+                        continue
+                    if par is None:
+                        par = S.Parents(f.body)
+                    nearest = next((a for a in par.ancestors(asg) if a["k"] in ("For", "While", "Loop")), None)
+                    if nearest is not loop:
+                        continue
+                    acc = asg["left"]["segs"][0]
+                    lets = [st for st in S.walk(asg["right"]) if st["k"] == "Struct" and st["segs"][-1] in ("ELet", "ALet")
+                            and any(fl["name"] == "body" and acc in S.idents(fl["expr"]) for fl in st["fields"])]
+                    if not lets:
+                        continue
+                    n += 1
+                    k += 1
+                    it = S.norm_ws(run.facts.text(rel, loop["iter"]["sp"]))
+                    ok = ".rev()" in it
+                    run.ob("R09.10", f"{f.name}|let chain #{k} wraps in reverse order", ok, site(rel, loop["sp"]), f"for … in {it[:70]}",
+                           witness="match (tick(\"first\"), tick(\"second\")) { (a, b) => .. }: the component lets are wrapped front to back, `second` is "
+                                   "the outermost let and runs first")
+            # (b) ITER.fold(init, |acc, x| Let { .., body: Box::new(acc) })
+            for c in S.walk(f.body):
+                if c["k"] != "MethodCall" or c["method"] != "fold" or len(c["args"]) < 2 or c["args"][1]["k"] != "Closure":
+                    continue
+                cl = c["args"][1]
+                if not cl["inputs"]:
+                    continue
+                accs = S.pat_bindings(cl["inputs"][0])
+                if not accs:
+                    continue
+                lets = [st for st in S.walk(cl["body"]) if st["k"] == "Struct" and st["segs"][-1] in ("ELet", "ALet")
+                        and any(fl["name"] == "body" and accs[0] in S.idents(fl["expr"]) for fl in st["fields"])]
+                if not lets:
+                    continue
+                n += 1
+                k += 1
+                it = S.norm_ws(run.facts.text(rel, c["recv"]["sp"]))
+                ok = ".rev()" in it
+                run.ob("R09.10", f"{f.name}|let chain #{k} wraps in reverse order", ok, site(rel, c["sp"]), f"{it[:70]}.fold(..)")
+    run.floor("let chains built by wrapping", n, 1)
+
+
+def r09_11(run, model):
+    run.rule("R09.11", "sub-terms keep their names while they are ordered: in anf.rs no `let` inside a match arm re-binds a name that the arm's "
+                       "pattern bound to a sub-term (lhs, rhs, args, …) - the evaluation-order clauses R09.1/R09.3 follow those names, and a "
+                       "swap hidden behind a re-binding (`let (op, lhs, rhs) = (.., rhs, lhs)`) would reorder effects unseen")
+    ANF = "crates/compiler/src/anf.rs"
+    n = 0
+    for f in model.fns(ANF):
+        if f.body is None:
+            continue
+        for m in S.find(f.body, "Match"):
+            for arm in m["arms"]:
+                bound = set(S.pat_bindings(arm["pat"]))
+                if not bound:
+                    continue
+                n += 1
+                for l in S.find(arm["body"], "Local"):
+                    re_ = bound & set(S.pat_bindings(l["pat"]))
+                    if not re_ or l.get("init") is None:
+                        continue
+                    # harmless: `let x = *x;` / `let x = x.clone();` style re-bindings of the same thing
+                    init_ids = S.idents(l["init"])
+                    same = len(re_) == 1 and l["pat"]["k"] == "PIdent" and init_ids & bound == re_
+                    head = re.sub(r"\{.*", "", S.norm_ws(run.facts.text(ANF, arm["pat"]["sp"])))
+                    run.ob("R09.11", f"{f.name}|{head}: sub-term names {sorted(re_)} are not re-bound", same, site(ANF, l["sp"]),
+                           f"let {S.norm_ws(run.facts.text(ANF, l['pat']['sp']))[:40]} = {S.norm_ws(run.facts.text(ANF, l['init']['sp']))[:60]}",
+                           witness="tick(\"gt-left\", 1) > tick(\"gt-right\", 2) prints gt-right first: `a > b` was turned into `b < a` before the operands were named")
+    run.ob("R09.11", "anf.rs|arms examined for re-bound sub-terms", True, site(ANF, None), f"{n} arms with bound sub-terms")
+    run.floor("arms of anf.rs that bind sub-terms", n, 15)
+
+
 def run(run, model):
+    run.try_rule(r09_10, model)
+    run.try_rule(r09_11, model)
     run.try_rule(r09_9, model)
     run.try_rule(r09_8, model)
     run.try_rule(r09_6, model)
